@@ -58,7 +58,8 @@ SPEC = Spec(
     rule="retry: the REAL exporter chain built by exporterhelper.NewLogs/NewTraces/NewMetrics (obsReport -> retrySender -> timeoutSender -> "
          "scripted pusher, queue off) inside a testing/synctest bubble (virtual time). Case = validated back-off config (zeros, multipliers "
          "0/0.5/1/1.25/1.375/1.5/2/3/10, rf 0/.1/.25/.5/.75/1, optional per-attempt timeout) x script of 0-12 backend outcomes (ok, transient, "
-         "permanent, throttle d, partial failure naming a remainder, wait-for-context, other-signal partial error; classification layers in "
+         "permanent, throttle d, partial failure naming a remainder, wait-for-context, other-signal partial error, backend error that already "
+         "contains a shutdown error; classification layers in "
          "random order between random fmt %w / errors.Join / multierr wrappers) x shutdown / cancellation / deadline placed before, inside or "
          "after specific attempts and waits of a dry run of the same case. rf>0: the value NextBackOff returns is learnt from a mirror "
          "ExponentialBackOff fed by the same seeded math/rand source and passed to the model (drawn=). Cases where an external event falls on "
@@ -75,7 +76,7 @@ SPEC = Spec(
          "retry-profiles: the same core in package xexporterhelper driving NewProfilesExporter / xconsumererror.Profiles. "
          "otlp-grpc: otlpexporter.processError on every gRPC code x {no RetryInfo, 6 delays}: nil / permanent / plain / throttle(d). "
          "errs: random wrap/join error trees (depth<=5) classified by the real IsPermanent / IsShutdownErr / errors.As(throttleRetry) / "
-         "errors.As(consumererror.Logs). validate: BackOffConfig.Validate + TimeoutConfig.Validate incl. rejected configs.",
+         "errors.As(consumererror.Logs|Traces|Metrics) (the signal under test rotates per case). validate: BackOffConfig.Validate + TimeoutConfig.Validate incl. rejected configs.",
     trusted_base=[
         "Lean 4.33.0 kernel; axioms per theorem listed under axioms_per_theorem (subset of propext, Classical.choice, Quot.sound)",
         "hand-written model of retrySender.Send + timeoutSender + cenkalti/backoff/v5 ExponentialBackOff (NextBackOff, incrementCurrentInterval) "
@@ -83,13 +84,25 @@ SPEC = Spec(
         "returned error class)",
         "float64 arithmetic of the back-off library is modelled over exact fractions; the harness keeps durations < 2^44 ns and multipliers "
         "with numerators < 128 where float64 products/quotients decide the same comparisons (checked by the differential)",
-        "the library's random draw is an input with the law LibLaw (interval*(1-rf)-1 <= drawn <= interval*(1+rf)+1)",
+        "the library's random draw is an input with the law LibLaw (interval*(1-rf)-1 <= drawn <= interval*(1+rf)+1); the driver evaluates "
+        "that law (lawAlongB, proved equivalent to LawAlong) on every draw the real library produced for the script (learnt from a mirror "
+        "ExponentialBackOff on the same seeded source) and fails the case with C05/backoff/library-draw-outside-law otherwise: sampled, not proved",
         "Go runtime: select, timers, context, testing/synctest virtual clock",
     ],
     assumptions=[
         "an external event (shutdown, cancellation, deadline) falling on exactly the instant an independent timer fires: either order is "
         "possible in Go; the relation Allowed/ndAllowed contains both, the theorems C05_allowed_* hold for both, the deterministic run is "
         "one of them (C05_run_allowed); which cases are ties is decided by the harness (Go) from the recorded instants",
+        "which cases are equal-instant cases is decided by the harness (Go) and RE-CHECKED by the driver from the model's own trace (isTie): a "
+        "case sent to the monitor that is not a tie fails with C05/harness/not-a-tie-sent-to-the-monitor; tie cases are monitored (accepts + "
+        "clause oracle), not diffed",
+        "C05_shutdown_classified needs that a wait really begins: when shutdown is pending but the elapsed-budget / deadline check trips "
+        "first, the loop answers exhausted / deadline, NOT shutdown-classified (C05_shutdown_pending_but_budget_trips) - during a drain a "
+        "persistent queue drops such a request; outside the clause as worded, the code's order of checks",
+        "IsShutdownErr of the result is also true when the BACKEND's error already contains a shutdown error (every return wraps it with %w; "
+        "Attempt.sd, driven by the harness): only 'reason shutdown => classified' holds unconditionally (C05_shutdown_reason_classified); "
+        "C05_sdFlag_iff carries the hypothesis that no backend error is shutdown-classified",
+        "the multi harness (several requests through one sender) runs with rf = 0 only",
         "LawAlong: the library law is assumed for every draw the script supplies (also for attempts that are never reached)",
         "the otlp-grpc harness runs with a go.mod COPY whose indirect dependency klauspost/compress is pointed at the cached v1.18.0 "
         "(v1.17.11 is not in the offline module cache); /repo is not touched",
